@@ -30,6 +30,9 @@ def main():
             from .viol import Violation, innermost_dd_frame
             todo = spec
             if spec.get('kind') == '__replay__':
+                from . import fix as _fix
+                if not getattr(mod, 'OWN_NAMES', False):
+                    _fix.modernize(spec['case'])
                 if spec['case'].get('kind') == '__shard__':
                     todo = spec['case']['spec']
                 else:
